@@ -389,6 +389,13 @@ def capacity(fb, rep):
         rep.unrec('R13.8', 'NameSet::add|shape', f.where(), 'consumption / capacity guard not found')
         return
     need = linear(cons[0].kids[1])
+    # the copy into the reserved bytes uses exactly that many bytes as its limit
+    cp = [n for n in f.nodes if n.k == 'CallExpr' and n.short == 'spxSnprintf' and strip(n.args()[0]).k == 'DeclRefExpr' and strip(n.args()[0]).dk == 'local']
+    for k, n in enumerate(cp):
+        lim = linear(n.args()[1])
+        same = lim is not None and need is not None and lim['terms'] == need['terms'] and lim['const'] == need['const']
+        rep.check(same, 'R13.8', 'NameSet::add|copy-limit#%d' % k, '%s:%d' % (f.file, n.l), 'the name is copied with the limit %s = bytes reserved' % render(n.args()[1]),
+                  'the name is copied with the limit %s although %s bytes were reserved for it: longer names are silently truncated (or shorter limits overflow)' % (render(n.args()[1]), render(cons[0].kids[1])))
     for k, g in enumerate(guards):
         c = strip(g.kid('cond'))
         if c.k != 'BinaryOperator' or c.o not in ('>=', '>'):
